@@ -26,7 +26,7 @@ ASSUMPTIONS = [
     "a group member is 'a non-amino-acid' when it is not a one-letter code of the 20 standard residues in either case",
 ]
 REQUIRED = {"all": ["salted_objects", "very_unequal_groups_with_many_outside", "omega_identity", "kappa_identity", "swap_pairs", "complement_pairs", "case_order_variants",
-                    "invalid_groups_rejected", "nontrivial_two_group", "omega_sequence_checked", "objects_with_phosphosites"]}
+                    "invalid_groups_rejected", "nontrivial_two_group", "omega_sequence_checked", "objects_with_phosphosites", "string_groups_that_read_as_words"]}
 NSEQ = {"quick": 350, "thorough": 3500}
 HI = {"quick": 80, "thorough": 200}
 BAD_MEMBERS = ["B", "X", "Z", "J", "O", "U", "1", "0", "*", "-", " ", "", "DE", "KR", "ST", "ALA", "Ala", 3, None, 1.5,
@@ -241,6 +241,27 @@ def judge(case, rep, S):
             rep.viol("member_order_case", "kappa_X(%s)=%r but a variant gives %r for %s" % (g1, v1, v1v, seq))
         if not ref_agree(rep, v1, recode(seq, set(g1))):
             rep.viol("kappa_x_reference", "kappa_X(%s)=%r on %s disagrees with the reference kappa of the two-class recoding" % (g1, v1, seq))
+    # --- a group given as ONE string is the set of its letters, also when the string reads as a word
+    if rng.random() < 0.5:
+        w = rng.choice(gen.GROUP_WORDS)
+        w_arg = rng.choice([w, w.lower(), w.capitalize()])
+        letters_w = sorted(set(w))
+        shuffled = list(letters_w)
+        rng.shuffle(shuffled)
+        rep.cnt("string_groups_that_read_as_words")
+        v_word = obj.get_kappa_X(w_arg)
+        v_list = obj.get_kappa_X(shuffled)
+        if not agree(rep, v_word, v_list):
+            rep.viol("member_order_case", "kappa_X(%r)=%r but the same letters as a list %r give %r for %s" % (w_arg, v_word, shuffled, v_list, seq),
+                     sig={"string_word": True})
+        rest = [a for a in M.AA if a not in letters_w]
+        if rest:
+            g2w = rng.sample(rest, rng.randint(1, min(4, len(rest))))
+            v2_word = obj.get_kappa_X(w_arg, g2w)
+            v2_list = obj.get_kappa_X(shuffled, list(g2w))
+            if not agree(rep, v2_word, v2_list):
+                rep.viol("member_order_case", "kappa_X(%r,%r)=%r but with the first group as a list %r it is %r for %s" % (w_arg, g2w, v2_word, shuffled, v2_list, seq),
+                         sig={"string_word": True})
     # --- invalid members are rejected (in group 1, in group 2, anywhere in the list)
     for rnd_ in range(3):
         bad = rng.choice(BAD_MEMBERS)
